@@ -225,6 +225,38 @@ pub struct PNode<'gc> {
     pub pattern: u64,
 }
 
+/// A value holding its pointers behind a boxed trait object that is traced through `dyn_collect!`
+/// (`DynCollect::dyn_trace` and its `Trace` adapter).
+pub trait Holder<'gc>: 'gc + gc_arena::collect::DynCollect<'gc> {
+    fn s(&self) -> Slot<'gc>;
+    fn w(&self) -> WSlot<'gc>;
+}
+gc_arena::collect::dyn_collect!(dyn Holder<'gc>);
+
+#[derive(Collect)]
+#[collect(no_drop)]
+pub struct HolderImpl<'gc> {
+    pub w: WSlot<'gc>,
+    pub s: Slot<'gc>,
+}
+impl<'gc> Holder<'gc> for HolderImpl<'gc> {
+    fn s(&self) -> Slot<'gc> {
+        self.s
+    }
+    fn w(&self) -> WSlot<'gc> {
+        self.w
+    }
+}
+
+#[derive(Collect)]
+#[collect(no_drop)]
+pub struct DynBox<'gc> {
+    pub tok: Tok,
+    pub probe: Probe,
+    pub inner: Box<dyn Holder<'gc> + 'gc>,
+    pub pattern: u64,
+}
+
 /// Body of a `Gc<RefLock<Body>>`.
 #[derive(Collect)]
 #[collect(no_drop)]
@@ -281,6 +313,7 @@ pub enum Ref<'gc> {
     Dyn(Gc<'gc, dyn NodeLike<'gc>>),
     Arr(Gc<'gc, [Slot<'gc>]>),
     P(Gc<'gc, PNode<'gc>>),
+    DB(Gc<'gc, DynBox<'gc>>),
     Set(DynamicRootSet<'gc>, usize),
 }
 
@@ -306,6 +339,7 @@ pub enum WeakRef<'gc> {
     Dyn(GcWeak<'gc, dyn NodeLike<'gc>>),
     Arr(GcWeak<'gc, [Slot<'gc>]>),
     P(GcWeak<'gc, PNode<'gc>>),
+    DB(GcWeak<'gc, DynBox<'gc>>),
 }
 
 macro_rules! each_gc {
@@ -327,6 +361,7 @@ macro_rules! each_gc {
             Ref::Dyn($g) => $e,
             Ref::Arr($g) => $e,
             Ref::P($g) => $e,
+            Ref::DB($g) => $e,
             Ref::Set(_, _) => unreachable!("set handled separately"),
         }
     };
@@ -348,6 +383,7 @@ macro_rules! each_weak {
             WeakRef::Dyn($g) => $e,
             WeakRef::Arr($g) => $e,
             WeakRef::P($g) => $e,
+            WeakRef::DB($g) => $e,
         }
     };
 }
@@ -387,6 +423,7 @@ impl<'gc> Ref<'gc> {
             Ref::Dyn(g) => WeakRef::Dyn(Gc::downgrade(g)),
             Ref::Arr(g) => WeakRef::Arr(Gc::downgrade(g)),
             Ref::P(g) => WeakRef::P(Gc::downgrade(g)),
+            Ref::DB(g) => WeakRef::DB(Gc::downgrade(g)),
             Ref::Set(_, _) => return None,
         })
     }
@@ -407,6 +444,7 @@ impl<'gc> Ref<'gc> {
             Ref::Dyn(g) => g.node().strong(),
             Ref::Arr(g) => g.to_vec(),
             Ref::P(g) => vec![g.s[0].get(), g.s[1].get()],
+            Ref::DB(g) => vec![g.inner.s()],
             Ref::Set(_, _) => vec![],
         }
     }
@@ -417,6 +455,7 @@ impl<'gc> Ref<'gc> {
             Ref::R(g) => g.w.iter().map(|c| c.get()).collect(),
             Ref::RB(g) => vec![g.borrow().w],
             Ref::P(g) => vec![g.w.get()],
+            Ref::DB(g) => vec![g.inner.w()],
             Ref::Dyn(g) => g.node().weak(),
             _ => vec![],
         }
@@ -442,6 +481,7 @@ impl<'gc> Ref<'gc> {
             Ref::TStr(g) => g.parse::<u32>().ok().map(|i| (i, pattern_for(i))),
             Ref::Dyn(g) => Some((g.node().tok.id, g.node().pattern)),
             Ref::P(g) => Some((g.tok.id, g.pattern)),
+            Ref::DB(g) => Some((g.tok.id, g.pattern)),
             Ref::LB(_) | Ref::OB(_) | Ref::Sl(_) | Ref::TSl(_) | Ref::Arr(_) | Ref::Set(_, _) => None,
         }
     }
@@ -486,6 +526,7 @@ impl<'gc> WeakRef<'gc> {
             WeakRef::Dyn(g) => Ref::Dyn(g.upgrade(mc)?),
             WeakRef::Arr(g) => Ref::Arr(g.upgrade(mc)?),
             WeakRef::P(g) => Ref::P(g.upgrade(mc)?),
+            WeakRef::DB(g) => Ref::DB(g.upgrade(mc)?),
         })
     }
 
@@ -504,6 +545,7 @@ impl<'gc> WeakRef<'gc> {
             WeakRef::Dyn(g) => Ref::Dyn(g.resurrect(fc)?),
             WeakRef::Arr(g) => Ref::Arr(g.resurrect(fc)?),
             WeakRef::P(g) => Ref::P(g.resurrect(fc)?),
+            WeakRef::DB(g) => Ref::DB(g.resurrect(fc)?),
         })
     }
 }
